@@ -266,8 +266,11 @@ def write_evidence(ctx, mod, merged, wall, violations, kf_reproduced, corpus_n):
         'coverage': cov, 'assumptions': getattr(mod, 'ASSUMPTIONS', []) + COMMON_ASSUMPTIONS,
         'wall_s': round(wall, 2), 'violations': violations,
     }
-    os.makedirs(os.path.join(ROOT, 'evidence'), exist_ok=True)
-    path = os.path.join(ROOT, 'evidence', ctx.prop + '.json')
+    # evidence always describes a run against /repo; sensitivity runs against a scratch copy (tools/eval_seed.py)
+    # redirect it so that the committed evidence is never overwritten by them
+    edir = os.environ.get('VERIF_EVIDENCE_DIR') or os.path.join(ROOT, 'evidence')
+    os.makedirs(edir, exist_ok=True)
+    path = os.path.join(edir, ctx.prop + '.json')
     with open(path, 'w', encoding='utf-8') as f:
         json.dump(ev, f, indent=1, ensure_ascii=True, default=str)
         f.write('\n')
